@@ -6,6 +6,7 @@ import (
 	"bytes"
 	"context"
 	"errors"
+	"fmt"
 	"os"
 	"os/exec"
 	"path/filepath"
@@ -24,6 +25,10 @@ type procResult struct {
 func gofastaBin() string { return os.Getenv("VERIF_BIN") }
 
 func runBin(timeout time.Duration, stdin string, stdout *os.File, args ...string) procResult {
+	return runBinEnv(timeout, stdin, stdout, nil, args...)
+}
+
+func runBinEnv(timeout time.Duration, stdin string, stdout *os.File, env []string, args ...string) procResult {
 	ctx, cancel := context.WithTimeout(context.Background(), timeout)
 	defer cancel()
 	cmd := exec.CommandContext(ctx, gofastaBin(), args...)
@@ -40,7 +45,7 @@ func runBin(timeout time.Duration, stdin string, stdout *os.File, args ...string
 	if stdin != "" {
 		cmd.Stdin = strings.NewReader(stdin)
 	}
-	cmd.Env = append(os.Environ(), "GOTRACEBACK=single")
+	cmd.Env = append(append(os.Environ(), "GOTRACEBACK=single"), env...)
 	err := cmd.Run()
 	r := procResult{Stdout: so.String(), Stderr: se.String()}
 	if ctx.Err() == context.DeadlineExceeded {
@@ -75,4 +80,27 @@ func writeFile(dir, name, content string) string {
 		panic(err)
 	}
 	return p
+}
+
+// cliAgree is the process-level arm of the in-process checks: the binary built from the tree is run with the
+// command line equivalent to the library call, and its stdout must equal `want` — the library output that the
+// caller has already validated against the model. It reaches the cobra layer (flag parsing, defaults, wiring)
+// that the library-level check cannot see. No-op when the binary is not available.
+func cliAgree(o *Obs, what string, want string, args ...string) error {
+	if gofastaBin() == "" {
+		return nil
+	}
+	r := runBin(30*time.Second, "", nil, args...)
+	stats.count("cli_runs", 1)
+	o.Label("cli-arm")
+	if r.TimedOut {
+		return fmt.Errorf("%s: the binary did not terminate on valid input: gofasta %s", what, strings.Join(args, " "))
+	}
+	if r.Exit != 0 {
+		return fmt.Errorf("%s: the binary exits %d on valid input: gofasta %s\nstderr: %s", what, r.Exit, strings.Join(args, " "), trunc(r.Stderr, 400))
+	}
+	if r.Stdout != want {
+		return fmt.Errorf("%s: command-line run differs from the (model-checked) library result: gofasta %s\n%s\n cli: %q\n lib: %q", what, strings.Join(args, " "), firstDiff(r.Stdout, want), trunc(r.Stdout, 600), trunc(want, 600))
+	}
+	return nil
 }
